@@ -209,6 +209,68 @@ theorem exec_reaches (w : World K) (b : Broker K) (nlv : K) (r : Rebal K) (alloc
         · exact hnz (by rw [← hk1]; exact hin)
       rw [hB hno, hzero hnz]
 
+/-- **Whatever the threshold**, executing the trades `make_trades` built (fractional quantities) closes every
+    non-cash contract that is not part of the target: liquidations are never filtered -/
+theorem exec_closes_untargeted (w : World K) (b : Broker K) (nlv : K) (r : Rebal K) (alloc : List (Key × K))
+    (tgt : List (Key × Option K)) (ts : List (Trade K)) (hf : r.fractional = true)
+    (hfresh : ∀ k, k ∉ b.held → b.pos k = 0) (hnd : b.held.Nodup) (htn : (tgt.map (·.1)).Nodup)
+    (h : tradesFor w b nlv r alloc (imbalanceOf w b tgt true) = .ok ts)
+    (hs : (ts.foldl (transact w) b).snapped = false) (k : Key) (hc : (w.spec k).isCash = false)
+    (hout : k ∉ tgt.map (·.1)) (hout' : k ∉ alloc.map (·.1)) :
+    (ts.foldl (transact w) b).pos k = 0 := by
+  have hmap := tradesFor_frac_any w b nlv r alloc hf _ ts h
+  have hkeys : ts.map (·.key) =
+      ((imbalanceOf w b tgt true).filter fun kv => !skipped w b nlv r alloc kv).map (·.1) := by
+    have := congrArg (List.map Prod.fst) hmap
+    simpa [List.map_map, Function.comp_def] using this
+  have hn : (ts.map (·.key)).Nodup := by
+    rw [hkeys]
+    exact (imbalanceOf_nodup w b tgt htn hnd).sublist (List.filter_sublist.map _)
+  by_cases hnz : k ∈ heldNZ w b
+  · have hin := untargeted_closed_entry w b tgt k ((mem_heldNZ w b k).mp hnz).1 hc
+      ((mem_heldNZ w b k).mp hnz).2.2 hout
+    have hkeep : (k, some (0 - b.pos k)) ∈
+        (imbalanceOf w b tgt true).filter fun kv => !skipped w b nlv r alloc kv := by
+      rw [List.mem_filter]
+      refine ⟨hin, ?_⟩
+      have hc0 : (alloc.map (·.1)).contains k = false := by simpa using hout'
+      have hsk : skipped w b nlv r alloc (k, some (0 - b.pos k)) = false := by
+        unfold skipped
+        simp only [hc0, Bool.and_false]
+      simp only [hsk, Bool.not_false]
+    have : (k, (some (0 - b.pos k) : Option K).getD 0) ∈ ts.map (fun t => (t.key, t.qty)) := by
+      rw [hmap]; exact List.mem_map.mpr ⟨_, hkeep, rfl⟩
+    obtain ⟨t, ht, e⟩ := List.mem_map.mp this
+    simp only [Prod.mk.injEq, Option.getD_some] at e
+    rw [foldl_transact_pos w ts hn b hs k]
+    have hfind := find_key_of_mem (fun u : Trade K => u.key) ts hn t ht
+    simp only [e.1] at hfind
+    rw [hfind]
+    simp only [Option.map_some, Option.getD_some, e.2]
+    ring
+  · have hzero : b.pos k = 0 := by
+      by_contra h0
+      apply hnz
+      rw [mem_heldNZ]
+      refine ⟨?_, hc, h0⟩
+      by_contra hnh
+      exact h0 (hfresh k hnh)
+    rw [foldl_transact_pos w ts hn b hs k]
+    have : ts.find? (fun t => t.key = k) = none := by
+      rw [List.find?_eq_none]
+      intro t ht hk
+      have hk' : t.key = k := by simpa using hk
+      have : t.key ∈ ((imbalanceOf w b tgt true).filter fun kv => !skipped w b nlv r alloc kv).map (·.1) := by
+        rw [← hkeys]; exact List.mem_map.mpr ⟨t, ht, rfl⟩
+      obtain ⟨kv, hkv, e⟩ := List.mem_map.mp this
+      have hkv' := (List.mem_filter.mp hkv).1
+      obtain ⟨_, hcase⟩ := mem_imbalanceOf w b tgt kv hkv'
+      have hk1 : kv.1 = k := e.trans hk'
+      rcases hcase with ⟨v, hv, _⟩ | ⟨hin, _, _⟩
+      · exact hout (by rw [← hk1]; exact List.mem_map.mpr ⟨(kv.1, v), hv, rfl⟩)
+      · exact hnz (by rw [← hk1]; exact hin)
+    rw [this, hzero]; simp
+
 /-- a successful rebalance, taken apart: the trades were built on the marked state after the accrual, at the
     NLV that state reports, and the final positions are those after executing them -/
 theorem rebalance_ok_decomp (pw : K → K → K) (w : World K) (r : Rebal K) (b : Broker K)
@@ -362,6 +424,44 @@ theorem rebalance_reaches_weights (pw : K → K → K) (w : World K) (D : K) (r 
       rw [hp] at hmem
       rw [h1 _ hmem]
       exact weights_target_value wt nlvPre p _ hp0 (hmult k)
+
+/-- **A successful rebalance closes everything it does not target, whatever the threshold** (absolute
+    target, fractional quantities, history never snapped): every non-cash contract outside the cleaned target
+    ends with position zero — in particular every contract of a futures chain other than the one the chain key
+    resolved to (C11) -/
+theorem rebalance_closes_untargeted (pw : K → K → K) (w : World K) (D : K) (r : Rebal K) (b : Broker K)
+    (hinv : Inv w D b) (hok : (rebalance pw w r b).2 = .ok ()) (hs : (rebalance pw w r b).1.snapped = false)
+    (hf : r.fractional = true) (ha : r.absolute = true)
+    (htn : ((cleanAlloc w r.target).map (·.1)).Nodup) (k : Key) (hc : (w.spec k).isCash = false)
+    (hout : k ∉ (cleanAlloc w r.target).map (·.1)) : (rebalance pw w r b).1.pos k = 0 := by
+  obtain ⟨nlvPre, trades, hnl, hmt, hshape⟩ := rebalance_ok_decomp pw w r b hok
+  set b2 := markAll w (accrue pw w r.time true b).1 with hb2
+  have hinv2 : Inv w D b2 := markAll_inv w D _ (accrue_inv pw w D r.time true b hinv)
+  have hpos : (rebalance pw w r b).1.pos = (trades.foldl (transact w) b2).pos := by
+    rw [hshape]; simp only; exact markAll_pos w _
+  have hsn : (trades.foldl (transact w) b2).snapped = false := by
+    rw [hshape] at hs; simp only at hs; rwa [markAll_snapped] at hs
+  unfold makeTrades at hmt
+  simp only [ha] at hmt
+  set tgt : List (Key × Option K) :=
+    if r.byWeight then toNrContracts w b2 nlvPre (cleanAlloc w r.target)
+    else (cleanAlloc w r.target).map fun kv => (kv.1, some kv.2) with htgt
+  have hkeys : tgt.map (·.1) = (cleanAlloc w r.target).map (·.1) := by
+    rw [htgt]
+    split_ifs
+    · unfold toNrContracts; rw [List.map_map]; apply List.map_congr_left; intro x _; rfl
+    · rw [List.map_map]; apply List.map_congr_left; intro x _; rfl
+  have htf : tradesFor w b2 nlvPre r (cleanAlloc w r.target) (imbalanceOf w b2 tgt true) = .ok trades := by
+    by_cases hany : (imbalanceOf w b2 tgt true).any (fun kv => kv.2.isNone) = true
+    · exfalso
+      have : (Except.error Err.unexpectedSign : Except Err (List (Trade K))) = .ok trades := by
+        rw [← hmt]; exact (if_pos hany).symm
+      cases this
+    · rw [← hmt]; exact (if_neg hany).symm
+  rw [hpos]
+  exact exec_closes_untargeted w b2 nlvPre r (cleanAlloc w r.target) tgt trades hf
+    (fun k hk => (hinv2.fresh k hk).1) hinv2.nodup (by rw [hkeys]; exact htn) htf hsn k hc
+    (by rw [hkeys]; exact hout) hout
 
 /-! ### the premises are satisfiable: a concrete rebalance at `ℚ` -/
 section NonVacuity
